@@ -61,7 +61,7 @@ def has_evals(b):
 
 @st.composite
 def gp_steps(draw, popsize):
-    shape = draw(st.sampled_from(["default", "simplegp", "select-vary", "novelty"]))
+    shape = draw(st.sampled_from(["default", "simplegp", "select-vary", "vary-select", "novelty"]))
     k = draw(st.integers(1, 5))
     pc = draw(st.sampled_from([0.01, 0.5, 0.9, 1.0]))
     pm = draw(st.sampled_from([0.01, 0.5, 0.9, 1.0]))
@@ -72,6 +72,10 @@ def gp_steps(draw, popsize):
         e = draw(st.integers(0, popsize // 2))
         n = draw(st.integers(0, (popsize - e) // 2))
         return ["par", [["elitism"], ["novelty"], ["seq", [["tournament", k, False], ["xpar", [["mutation", pm], ["crossover", pc]], [1, 1]]]]], [e, n, popsize - e - n]]
+    if shape == "vary-select":
+        # selection applied to freshly produced (not yet evaluated) individuals
+        producer = draw(st.sampled_from([["mutation", 1.0], ["novelty"], ["crossover", 1.0]]))
+        return ["seq", [producer, ["tournament", k, draw(st.booleans())]]]
     if shape == "select-vary":
         return ["seq", [["tournament", k, draw(st.booleans())], ["mutation", 1.0]]]
     return ["novelty"]
